@@ -230,6 +230,10 @@ func main() {
 				spurious = append(spurious, fmt.Sprintf("%s: known-finding witness for %q not reproduced natively", c.Harness, c.Label))
 			}
 		case "cover":
+			if c.Abstract {
+				// the witness lives in an abstraction (stub / uninterpreted function): it need not replay natively
+				continue
+			}
 			if reproduced(c, o) {
 				validated++
 			} else {
